@@ -50,6 +50,9 @@ from sqlfluff.rules.capitalisation.CP03 import Rule_CP03
 from sqlfluff.rules.capitalisation.CP04 import Rule_CP04
 from sqlfluff.rules.capitalisation.CP05 import Rule_CP05
 
+import logging as _logging
+_logging.getLogger("sqlfluff").addHandler(_logging.NullHandler())      # a rule exception is logged at CRITICAL: keep the tracebacks out of the check output
+
 PROP = "C15"
 LEVEL = "exploration"
 EXHAUSTIVE = False
@@ -286,7 +289,11 @@ def install_spy():
             return orig(self, segment, context)
         mem = context.memory
         before = {k: (set(v) if isinstance(v, set) else v) for k, v in mem.items()} if isinstance(mem, dict) else {}
-        res = orig(self, segment, context)
+        try:
+            res = orig(self, segment, context)
+        except Exception as e:      # reported to the sink as an observation, then re-raised unchanged (the linter turns it into a CP0x 'Unexpected exception' violation)
+            sink(self, segment, context, before, e)
+            raise
         sink(self, segment, context, before, res)
         return res
     _handle_segment._c15_spy = True
@@ -312,7 +319,8 @@ def harvest_contexts(dialect="ansi"):
     got = {}
 
     def sink(rule, segment, context, before, res):
-        got.setdefault(rule.code, {}).setdefault(segment.get_type(), (segment, dataclasses.replace(context)))
+        if not isinstance(res, BaseException):
+            got.setdefault(rule.code, {}).setdefault(segment.get_type(), (segment, dataclasses.replace(context)))
     _SPY["sink"] = sink
     try:
         Linter(config=make_config(dialect, "consistent")).lint_string(PROTO_SQL, fix=False)
@@ -522,6 +530,7 @@ CRAFTED = [
     ("duckdb", "select {'a': 1, 'B': 2}, [1,2], a->>'Key' from t\n"),
     ("materialize", "ALTER SOURCE IF EXISTS src_name SET ( SIZE 'xsmall' );\n"),
     ("snowflake", "alter warehouse load_wh set scaling_policy = 'Standard';\n"),
+    ("oracle", "SELECT a MULTISET EXCEPT b AS c FROM t\n"),
 ]
 KEYWORD_CASES = ["select", "SELECT", "SeLeCt", "Select", "sELECT", "Null", "NULL", "null", "nUlL", "TRUE", "true", "True", "tRuE", "False", "FALSE"]
 
@@ -741,6 +750,13 @@ def run_case(dialect, label, sql, policy, fails, st, want=None):
 
     def sink(rule, segment, context, before, res):
         st["handle_calls"] += 1
+        if isinstance(res, BaseException):
+            st["handle_raised"] += 1
+            fails.add(f"OBS:_handle_segment raises {type(res).__name__} (no fix is produced; the linter reports 'Unexpected exception' for the rule and stops it for the file)",
+                      "observation", F_HANDLE, (len(sql),),
+                      lambda: _js(dict(where(), rule=rule.code, segment_type=segment.get_type(), segment_class=type(segment).__name__, segment_raw=segment.raw,
+                                       segment_is_raw=not segment.segments)))
+            return
         has, fixed = handle_segment_contract(rule, segment, before, res, fails, where, True)
         if has:
             st["handle_fixes"] += 1
@@ -776,7 +792,7 @@ def run_case(dialect, label, sql, policy, fails, st, want=None):
 
 
 def _new_stats():
-    return {"runs": 0, "handle_calls": 0, "handle_fixes": 0, "e2e_compared": 0, "e2e_changed": 0, "skipped_parse_or_template_error": 0,
+    return {"runs": 0, "handle_calls": 0, "handle_fixes": 0, "handle_raised": 0, "e2e_compared": 0, "e2e_changed": 0, "skipped_parse_or_template_error": 0,
             "anchor_types": Counter(), "samples": [], "spy_table": [], "changed_keys": []}
 
 
@@ -865,6 +881,7 @@ def linter_runs(tier, seed):
         "exhaustive": False,
         "evaluations": agg["handle_calls"] + agg["e2e_compared"],
         "handle_segment_calls_checked": agg["handle_calls"], "handle_segment_calls_with_fix": agg["handle_fixes"],
+        "handle_segment_calls_that_raised": agg["handle_raised"],
         "e2e_runs_compared": agg["e2e_compared"], "e2e_runs_where_the_fix_changed_the_text": agg["e2e_changed"],
         "runs_skipped_parse_template_or_lex_error": agg["skipped_parse_or_template_error"],
         "fix_anchor_types_seen": dict(sorted(anchors.items())),
